@@ -18,7 +18,7 @@ ASSUMPTIONS = [
 ]
 REQUIRED = {"eval.post": 1000, "spy.con": 1000, "penalty_positive_runs": 20}
 MIN_NONTRIVIAL = {"quick": 20, "thorough": 100}
-PLAN = [("multi", 900, 14000), ("fixedscale", 500, 8000), ("nofun", 200, 3000)]
+PLAN = [("multi", 900, 14000), ("fixedscale", 500, 8000), ("nofun", 200, 3000), ("cross", 300, 6000)]
 
 
 def cases(tier, seed):
@@ -50,6 +50,7 @@ def make_spec(case):
         spec["bounds"] = {"lb": lb.tolist(), "ub": ub.tolist(),
                           "form": "Bounds", "patterns": pats}
         spec["options"]["scale"] = bool(rng.random() < 0.6)
+        gen.clamp_npt(spec)
     else:
         spec = gen.general(rng, n=n, con=str(rng.choice(["nl", "both"])),
                            forms=forms, fun_none=1.0, maxfev=(20, 100))
@@ -57,7 +58,10 @@ def make_spec(case):
 
 
 def run_case(case):
-    spec = make_spec(case)
+    if case["fam"] == "cross":
+        spec, _src = e2e.cross_spec(ID, case)
+    else:
+        spec = make_spec(case)
     rec = mrun.run(spec)
     viols, info = oracles.o_c06(rec)
     counts = e2e.base_counts(rec)
